@@ -245,6 +245,17 @@ CHECKS = {
          'name and must parse exactly what the table allows.',
     note='All goal text is operator-free (helpers loaded while the table is pristine) because histories remove predefined operators. '
          'op(P,T,[]) is accepted either as the empty list of names or as the protected name [].'),
+ 'C36': dict(
+    level='exploration',
+    technique='runtime monitoring: reference model of the documented directive table; format strings, arguments and expected text are generated together; value-based oracle for ~Nf',
+    text='Format strings with 1-6 directives (every documented directive, ~* numeric arguments, literal ASCII/Unicode text, column '
+         'segments with 1-3 fill points) and arguments of the matching types (integers of every size and sign, floats from 5e-324 to '
+         '1.5e300, atoms, strings, ground terms) are run through phrase(format_//2) and, 1 in 8, through format/3 on a file stream; the '
+         'produced text must equal the model text (~Nf: N digits and numerically within half a unit plus double-precision slack of the '
+         'exact binary value; uneven fill remainders may go to any fill point). 44 error cases per mode: undocumented directives, '
+         'argument-count mismatches and ill-typed arguments must raise, and format/3 must not have written anything.',
+    note='~w/~q leaves use the machine\'s own write_term_to_chars text of the same argument (the printer is checked by C15/C55). '
+         'Column stops before the current column, ~a with numbers, ~f with integers and ~0n are undocumented and not generated.'),
 }
 
 NOT_APPLICABLE_REASON_UNBUILT = ('check designed in DESIGN.md but not built/validated yet in this session; '
